@@ -165,3 +165,39 @@ pub fn object_find<'a>(o: &'a dyn Object, key: &str) -> (r: Option<Value<'a>>)
 // derived Clone of Value (external_derive): a clone denotes the same value
 pub assume_specification<'a>[ <Value<'a> as Clone>::clone ](v: &Value<'a>) -> (r: Value<'a>)
     ensures r@ == v@;
+
+// AhoCorasick::find_iter (leftmost, NON-overlapping): yields only some of the occurrences.  No completeness
+// is assumed for it, so code that switches to it cannot discharge "every occurrence is seen".
+pub uninterp spec fn ac_hits_nonoverlapping(a: &AhoCorasick, hay: Seq<char>) -> Seq<aho_corasick::Match>;
+#[verifier::external_body]
+pub struct AcFindIter<'a, 'h>(aho_corasick::FindIter<'a, 'h>);
+impl<'a, 'h> AcFindIter<'a, 'h> {
+    pub uninterp spec fn rest(&self) -> Seq<aho_corasick::Match>;
+    #[verifier::external_body]
+    pub fn nxt(&mut self) -> (r: Option<aho_corasick::Match>)
+        ensures
+            match r {
+                Some(v) => old(self).rest().len() > 0 && v == old(self).rest()[0]
+                    && final(self).rest() == old(self).rest().skip(1),
+                None => old(self).rest().len() == 0 && final(self).rest() == old(self).rest(),
+            },
+    {
+        self.0.next()
+    }
+}
+#[verifier::external_body]
+pub fn ac_find_iter<'a, 'h>(a: &'a AhoCorasick, hay: &'h str) -> (r: AcFindIter<'a, 'h>)
+    ensures r.rest() == ac_hits_nonoverlapping(a, hay@),
+{
+    AcFindIter(a.find_iter(hay))
+}
+
+// slices indexed by PatternID (aho-corasick implements Index<PatternID> for [T]; the orphan rule keeps Verus from
+// attaching a precondition to that foreign impl, so the index expression is routed through this wrapper: expression hole)
+#[verifier::external_body]
+pub fn pat_index<'a, T>(s: &'a [T], p: aho_corasick::PatternID) -> (r: &'a T)
+    requires pid(p) < s@.len(),
+    ensures *r == s@[pid(p) as int],
+{
+    &s[p]
+}
